@@ -138,7 +138,7 @@ pub fn run(tier: &str, out: &mut std::fs::File) -> i32 {
     let mut samples = vec![];
     let scratch = runner::scratch_root().join("c36");
     let _ = std::fs::create_dir_all(&scratch);
-    let rt = tokio::runtime::Builder::new_current_thread().enable_time().start_paused(true).build().unwrap();
+    let rt = runner::paused_rt(0);
     let res: Result<(), String> = rt.block_on(async {
         for (bname, base) in &bases {
             let p = if base.is_empty() { 0 } else { 2 }; // a prev that matches every base
